@@ -91,7 +91,7 @@ func loadWorld(repo string, patterns []string, trustedDir string) (*World, error
 			return
 		}
 		for _, f := range p.GoFiles {
-			if filepath.Base(f) == "verif_contracts.go" {
+			if strings.HasPrefix(filepath.Base(f), "verif_contracts") {
 				cf, e := parseContractFile(f, p.PkgPath, true)
 				if e != nil {
 					err = e
